@@ -296,6 +296,10 @@ pub enum CaseOutcome {
 pub fn run_case(prop: &Prop, words: &[u32], ctx: &mut Ctx) -> CaseOutcome {
     let mut tape = Tape::new(words);
     let r = catch_unwind(AssertUnwindSafe(|| (prop.check)(&mut tape, ctx)));
+    if tape.consumed() > words.len() {
+        // the decoder wanted more choices than the tape had: the remainder was built minimally
+        ctx.class("tape-exhausted");
+    }
     outcome_of(r, ctx)
 }
 
